@@ -200,7 +200,7 @@ func runWorker(args []string) int {
 		rr := core.Exec(*prop, tp, false, func(c *core.Ctx) *core.Violation { c.Env = env; return f(c) })
 		res.Runs++
 		res.Events += int64(rr.Ctx.L.Seq)
-		res.Digest = core.Mix(res.Digest^rr.Ctx.L.Digest, uint64(r))
+		res.Digest ^= core.Mix(rr.Ctx.L.Digest, uint64(r)) // order- and partition-independent
 		mergeCounters(res.Counters, rr.Ctx.C)
 		if rr.Harness != nil {
 			res.Harness = fmt.Sprintf("run %d: harness panic: %v\n%s", r, rr.Harness.Val, rr.Harness.Stack)
@@ -614,6 +614,7 @@ func runCheck(args []string) int {
 			return 2
 		}
 	}
+	fmt.Printf("vsim: batch digest %016x\n", total.Digest)
 	fmt.Printf("vsim: %d runs (%d under the race detector), %d events, %d distinct non-trivial signatures, %.1fs, %.0f runs/hour\n", total.Runs, raceRuns, total.Events, distinct, wall, float64(total.Runs)/wall*3600)
 	fk := core.SortedKeys(faults)
 	for _, k := range fk {
